@@ -349,7 +349,7 @@ pub fn embedded(name: &str) -> Vec<Vec<u8>> {
         "sig.verify_json" => strs(SIGNED_JSON),
         "sig.verify_event" => strs(SIGNED_EVENTS),
         "sig.from_der" => hex(SIG_DER_HEX),
-        "html.sanitize" | "html.helpers" | "html.matrix" => strs(HTML),
+        "html.sanitize" | "html.sanitize_shared" | "html.helpers" | "html.matrix" => strs(HTML),
         "http.c.send_message" => strs(HTTP_C_SEND_MESSAGE),
         "http.c.sync" => strs(HTTP_C_SYNC),
         "http.c.set_pushrule" => strs(HTTP_C_SET_PUSHRULE),
